@@ -46,4 +46,94 @@ def replay(pid, cx):
         p = subprocess.run(args, stdout=subprocess.PIPE, stderr=subprocess.STDOUT)
         print(p.stdout.decode())
         return 1 if p.returncode == 1 else 0
+    if pid == 'C18':
+        import witness
+        exe = witness.build()
+        p = subprocess.run([exe, 'c18', '1', '100'], stdout=subprocess.PIPE, stderr=subprocess.STDOUT)
+        print('recorded failing case: %s -- %s' % (cx.get('input'), cx.get('what')))
+        print('re-running the exhaustive probe on the current tree: ' + p.stdout.decode()[-600:])
+        return 1 if p.returncode == 1 else 0
     return 2
+
+
+# ---------------------------------------------------------------------------------------------------------------------
+# C18
+# ---------------------------------------------------------------------------------------------------------------------
+KANI_DIR = os.path.join(A.VERIF, 'kani')
+KANI_HARNESSES = ['send_empty', 'send_two', 'send_one', 'next_skips_foreign_records']
+C18_SOURCES = ['dev_input_rw.rs', 'struct_ser.rs', 'key_codes.rs', 'keys.rs', 'events.rs']
+
+
+def c18_hash():
+    import hashlib
+    h = hashlib.sha256()
+    for f in C18_SOURCES: h.update(open(os.path.join(A.REPO_SRC, f), 'rb').read())
+    h.update(open(os.path.join(KANI_DIR, 'src', 'main.rs'), 'rb').read())
+    return h.hexdigest()[:24]
+
+
+def run_c18_native(tier, seed):
+    """exhaustive native enumeration through a real pipe (harness crate, real dev_input_rw.rs / struct_ser.rs / key_codes.rs)"""
+    import witness
+    out = dict(name='c18_native', kind='enumerative', counts_as_proof=False)
+    try:
+        exe = witness.build()
+    except Exception as e:
+        out['undecided'] = 'harness build failed: %s' % str(e)[-300:]; return out
+    budget = 2000 if tier == 'quick' else 200000
+    t0 = time.time()
+    p = subprocess.run([exe, 'c18', str(seed + 1), str(budget)], stdout=subprocess.PIPE, stderr=subprocess.PIPE, timeout=3000)
+    try:
+        d = json.loads(p.stdout.decode().strip().split('\n')[-1])
+    except Exception as e:
+        out['undecided'] = 'probe output unreadable: %s %s' % (e, p.stderr.decode()[-300:]); return out
+    out.update(exhaustive=True, evaluations=d['one_event_batches'] + d['random_batches'] + d['reader_records'] + d['round_trips'] + 1,
+               distinct_nontrivial=d['one_event_batches'] + d['reader_records'] + d['round_trips'],
+               sample=d['sample'], wall_s=round(time.time() - t0, 2),
+               explanation=('real DevInputWriter::send / DevInputReader::next over a pipe: every known key code (%d) x press/release as a one-event batch (bytes = zero timeval, EV_KEY, code, value + one all-zero SYN_REPORT): %d cases, '
+                            'complete; the empty batch; %d seeded random batches of up to 39 events (NOT exhaustive); reader on %d foreign/valid records (7 types x 7 values x all known codes and 10 unknown ones) followed by a valid record; '
+                            'round trip writer -> reader for every code: %d') % (d['known_codes'], d['one_event_batches'], d['random_batches'], d['reader_records'], d['round_trips']),
+               bound='one-event batches and reader records: complete over the code domain; batches: random, length < 40')
+    out['violations'] = len(d['failures'])
+    out['violation_list'] = [dict(input=f['input'], what=f['what']) for f in d['failures'][:1]]
+    return out
+
+
+def run_c18_kani(tier, seed):
+    """Kani (CBMC) harnesses of /verif/kani over the real files. thorough: run them; quick: report a recorded run for exactly this source text"""
+    out = dict(name='c18_kani', kind='bounded model checking (Kani 0.68 / CBMC 6.11)', counts_as_proof=False)
+    h = c18_hash()
+    rec_path = os.path.join(KANI_DIR, 'verified.json')
+    rec = json.load(open(rec_path)) if os.path.exists(rec_path) else {}
+    if tier == 'quick':
+        r = rec.get(h)
+        if r:
+            out.update(explanation='Kani verified these harnesses on exactly this source text (content hash %s) in a recorded thorough run: %s' % (h, json.dumps(r['harnesses'])), recorded=True, evaluations=len(r['harnesses']), distinct_nontrivial=len(r['harnesses']), violations=0, violation_list=[])
+        else:
+            out.update(explanation='no Kani run is recorded for this source text (content hash %s); the Kani harnesses run in the thorough tier (about 35 minutes)' % h, recorded=False, evaluations=0, distinct_nontrivial=0, violations=0, violation_list=[])
+        return out
+    env = dict(os.environ); env['VERIF_REPO_SRC'] = A.REPO_SRC; env['CARGO_NET_OFFLINE'] = 'true'
+    import shutil
+    shutil.copy('/repo/Cargo.lock', os.path.join(KANI_DIR, 'Cargo.lock'))
+    res = {}; t00 = time.time(); viol = []
+    procs = {}
+    # build once (first harness), then run the remaining ones in parallel on the shared build
+    for hn in KANI_HARNESSES:
+        t0 = time.time()
+        p = subprocess.run(['cargo', 'kani', '-Z', 'stubbing', '--harness', hn], cwd=KANI_DIR, env=env, stdout=subprocess.PIPE, stderr=subprocess.STDOUT, timeout=7200)
+        txt = p.stdout.decode(errors='replace')
+        ok = 'VERIFICATION:- SUCCESSFUL' in txt and p.returncode == 0
+        import re
+        m = re.search(r'\*\* (\d+) of (\d+) failed', txt); cov = re.search(r'\*\* (\d+) of (\d+) cover properties satisfied', txt)
+        res[hn] = dict(status='SUCCESSFUL' if ok else 'FAILED', time_s=round(time.time() - t0), checks=int(m.group(2)) if m else None, failed=int(m.group(1)) if m else None,
+                       covers='%s/%s' % (cov.group(1), cov.group(2)) if cov else None)
+        if not ok:
+            fl = [l for l in txt.split('\n') if 'FAILURE' in l or 'Failed Checks' in l][:5]
+            viol.append(dict(input='kani harness ' + hn, what='Kani harness %s fails: %s' % (hn, ' | '.join(fl)[:400])))
+    if not viol:
+        rec[h] = dict(harnesses=res, kani='0.68.0', recorded_at=time.strftime('%Y-%m-%dT%H:%M:%SZ', time.gmtime()))
+        json.dump(rec, open(rec_path, 'w'), indent=1)
+    out.update(explanation='Kani harnesses on the real dev_input_rw.rs/struct_ser.rs/key_codes.rs (nix read/write stubbed to transfer exactly the bytes): ' + json.dumps(res),
+               evaluations=len(res), distinct_nontrivial=len(res), wall_s=round(time.time() - t00), violations=len(viol), violation_list=viol[:1],
+               bound='send_one and next_skips_foreign_records: complete over all u16 codes / all 24-byte records (no loop depends on a symbolic value; unwinding assertions on); send_empty, send_two: fixed lengths 0 and 2 (bounded stand-in for "any length")')
+    return out
